@@ -465,6 +465,8 @@ class Engine:
             return v.t != str_code('')
         if v.ty.k == 'list' and getattr(self, '_cur_heap', None) is not None:
             return self._cur_heap.len(v.t) != 0
+        if v.ty.k == 'dict' and getattr(self, '_cur_heap', None) is not None:
+            return self._cur_heap.dom(v.t) != z3.K(Key, False)          # a dict is true iff it has a key
         if v.ty.k in ('ref',):
             return z3.BoolVal(True)
         if v.ty.k == 'tuple':
@@ -570,7 +572,21 @@ class Engine:
         return vbool(z3.And(*ts) if isinstance(e.op, ast.And) else z3.Or(*ts))
 
     def ev_IfExp(self, e, st):
-        raise OutOfSubset('conditional expression at line %d' % e.lineno)
+        # `a if c else b` with side-effect-free branches of one scalar / reference type: a value-level select
+        n_ex = len(self.pending_exits)
+        c = self.truth(self.ev(e.test, st))
+        # each branch is evaluated under its own path condition (its safety obligations, e.g. a key lookup, are conditional on the test)
+        sa, sb = st.fork(c), st.fork(z3.Not(c))
+        a, b = self.ev(e.body, sa), self.ev(e.orelse, sb)
+        if len(self.pending_exits) != n_ex or any(sa.heap.arr.get(k) is not v for k, v in st.heap.arr.items()) or any(sb.heap.arr.get(k) is not v for k, v in st.heap.arr.items()):
+            raise OutOfSubset('conditional expression whose parts can raise or have effects, line %d' % e.lineno)
+        if a.ty.k in ('int', 'real') and b.ty.k in ('int', 'real'):
+            if a.ty.k == b.ty.k == 'int':
+                return vint(z3.If(c, a.t, b.t))
+            return vreal(z3.If(c, to_real(a.t), to_real(b.t)))
+        if a.ty == b.ty and a.ty.k in ('ref', 'str', 'bool', 'key', 'list', 'dict', 'htuple'):
+            return V(a.ty, z3.If(c, a.t, b.t))
+        raise OutOfSubset('conditional expression over %r / %r at line %d' % (a.ty, b.ty, e.lineno))
 
     def unwrap_operand(self, v, st, line):
         if v.ty.k == 'opt' and v.ty.a[0].k in ('ref', 'int', 'real'):
@@ -1044,6 +1060,27 @@ class Engine:
             st.heap.set('valR', z3.Store(st.heap.A('valR'), out.t, newval))
             st.pc.append(z3.ForAll([kq], z3.Implies(st.heap.has(src.t, kq), newval[kq] == to_real(val.t))))
             return out
+        # {key: value for key, value in d.items() if COND(key, value)}: the filtered copy
+        if (len(e.generators) == 1 and len(g.ifs) == 1 and isinstance(g.iter, ast.Call) and isinstance(g.iter.func, ast.Attribute)
+                and g.iter.func.attr == 'items' and isinstance(g.target, ast.Tuple) and len(g.target.elts) == 2
+                and isinstance(e.key, ast.Name) and e.key.id == g.target.elts[0].id and isinstance(e.value, ast.Name) and e.value.id == g.target.elts[1].id):
+            src = self.ev(g.iter.func.value, st)
+            if src.ty != CDict:
+                raise OutOfSubset('dict comprehension over %r' % (src.ty,))
+            out = self.new_dict(st)
+            kq = fresh('kq', Key)
+            sub = st.fork()
+            sub.env[g.target.elts[0].id] = V(TKey, kq)
+            sub.env[g.target.elts[1].id] = vreal(st.heap.get(src.t, kq))
+            n_ex = len(self.pending_exits)
+            cond = self.truth(self.ev(g.ifs[0], sub))
+            if len(self.pending_exits) != n_ex or len(sub.pc) != len(st.pc):
+                raise OutOfSubset('dict comprehension whose filter can raise, line %d' % e.lineno)
+            newdom = fresh('compdom', KB)
+            st.heap.set('dom', z3.Store(st.heap.A('dom'), out.t, newdom))
+            st.heap.set('valR', z3.Store(st.heap.A('valR'), out.t, st.heap.A('valR')[src.t]))
+            st.pc.append(z3.ForAll([kq], newdom[kq] == z3.And(st.heap.has(src.t, kq), cond)))
+            return out
         raise OutOfSubset('dict comprehension shape at line %d' % e.lineno)
 
     # ---------------------------------------------------------------- calls
@@ -1208,6 +1245,8 @@ class Engine:
         raise OutOfSubset('type() of %r at line %d' % (v.ty, line))
 
     def isinstance_(self, st, v, clsv, line):
+        if clsv.ty.k == 'tuple' and clsv.items and all(c.ty.k == 'py' for c in clsv.items):
+            return z3.Or(*[self.isinstance_(st, v, c, line) for c in clsv.items])          # isinstance(x, (A, B))
         if clsv.ty.k != 'py':
             raise OutOfSubset('isinstance against non-class')
         what = clsv.py
@@ -1250,6 +1289,12 @@ class Engine:
                 return V(recv.ty, d)
             if name in ('keys', 'items', 'values') and not args:
                 return V(T('dict' + name, recv.ty.a[0]), recv.t)
+            if name == 'get' and len(args) == 1 and recv.ty.a[0].k != 'real':
+                k = self.to_key(st, args[0])
+                return V(TOpt(recv.ty.a[0]), st.heap.geti(recv.t, k), none=z3.Not(st.heap.has(recv.t, k)))          # d.get(k): None when absent
+            if name == 'get' and len(args) == 2 and recv.ty.a[0].k == 'real' and args[1].ty.k in ('int', 'real'):
+                k = self.to_key(st, args[0])
+                return vreal(z3.If(st.heap.has(recv.t, k), st.heap.get(recv.t, k), to_real(args[1].t)))
         if k == 'list' and name == 'append' and len(args) == 1:
             return self.list_append(st, recv, args[0], line)
         if k == 'key':
@@ -1577,12 +1622,28 @@ class Engine:
         out = []
         a = st.fork(c)
         self.narrow(s.test, a)
+        self.narrow_none(s.test, a, True)
         if self.feasible(a):
             out += self.run_block(s.body, a)
         b = st.fork(z3.Not(c))
+        self.narrow_none(s.test, b, False)
         if self.feasible(b):
             out += self.run_block(s.orelse, b)
         return out
+
+    def narrow_none(self, test, st, holds):
+        """on the branch where `x is not None` holds (or `x is None` fails, or a plain `x` of optional object type is true) the local x is not None"""
+        name, nonnull = None, None
+        if isinstance(test, ast.Compare) and len(test.ops) == 1 and isinstance(test.left, ast.Name) and isinstance(test.comparators[0], ast.Constant) \
+                and test.comparators[0].value is None and isinstance(test.ops[0], (ast.Is, ast.IsNot)):
+            name = test.left.id
+            nonnull = holds if isinstance(test.ops[0], ast.IsNot) else not holds
+        elif isinstance(test, ast.Name) and test.id in st.env and st.env[test.id].ty.k == 'opt' and st.env[test.id].ty.a[0].k in ('ref', 'htuple', 'list', 'dict'):
+            name, nonnull = test.id, (True if holds else None)
+        if name in st.env and nonnull:
+            v = st.env[name]
+            if v.ty.k == 'opt':
+                st.env[name] = V(v.ty.a[0], v.t, items=v.items)          # (the test put `not none` into the path condition)
 
     def narrow(self, test, st):
         """after `type(x) == C` / `isinstance(x, C)` holds, a dict key x is known to be an object of class C"""
@@ -1770,10 +1831,19 @@ class Engine:
         def ctx(state, pos):
             return LoopCtx(self, entry, state, it, pos, s)
 
-        for name in spec.get('real_vars', []):
+        def _names(lst):
+            # a local may be given by name or by its ordinal of first assignment (stable under renaming)
+            out = []
+            for n_ in lst:
+                if isinstance(n_, int):
+                    n_ = self.local_order[n_] if n_ < len(self.local_order) else None
+                if n_ is not None and n_ not in out:
+                    out.append(n_)
+            return out
+        for name in _names(spec.get('real_vars', [])):
             if name in entry.env and entry.env[name].ty.k == 'int':
                 entry.env[name] = vreal(to_real(entry.env[name].t))
-        for name in spec.get('vec_vars', []):
+        for name in _names(spec.get('vec_vars', [])):
             v0 = entry.env.get(name)
             if v0 is not None and v0.ty.k == 'int' and z3.is_int_value(v0.t) and v0.t.as_long() == 0:
                 entry.env[name] = V(TVec, VZ, py='fresh')       # python 0 as the neutral element of vector addition
